@@ -1,24 +1,36 @@
 // C09 — JitAllocator never hands out overlapping, misaligned or corrupted memory.
 //
-// Case: cfg = [option_bits, block_size_sel, granularity_sel, pattern_sel, final_mode, exh_mode, exh_batch]
+// Case: cfg = [option_bits, block_size_sel, granularity_sel, pattern_sel, final_mode, exh_depth, 0]
 //   option_bits: 1 dual mapping, 2 multiple pools, 4 fill unused, 8 immediate release, 16 no initial padding,
 //                32 large pages, 64 align block size to large page, 128 custom fill pattern
-//   final_mode : how the history is finished (0 release FIFO, 1 release LIFO, 2 release interleaved, 3 soft reset, 4 hard reset)
-//   exh_mode   : 0 = random history (ops are the history); 1/2 = bounded-exhaustive batch (see run_exhaustive)
-// ops (first int = kind):
+//   *_sel      : index into kBlockSel / kGranSel / kPatternSel (valid and invalid CreateParams values)
+//   final_mode : how the history ends (0 release oldest first, 1 newest first, 2 interleaved, 3 soft reset, 4 hard reset);
+//                afterwards: nothing accounted, retention policy, one more alloc/release, hard reset leaves nothing
+//   exh_depth  : 0 = ops are the history; n > 0 = bounded-exhaustive batch: ops is a prefix, every suffix of <= n symbols of
+//                the 11-symbol alphabet (exh_op) is appended and run on a fresh allocator (see run_exhaustive / vh_init)
+// ops (first int = kind; every int is decoded modulo its range, indices modulo the number of live spans):
 //   0 alloc   [0, size_class, k, d, init]        init: 0 leave as is, 1 write through rw(), 2 write through write()
-//   1 release [1, i]
-//   2 shrink  [2, i, mode, v, via]               via: 0 span returned by alloc, 1 span returned by query
+//   1 release [1, i]                             i >= 0 position, -1 newest, -2 oldest
+//   2 shrink  [2, i, mode, v, via]               mode: 0 to 0 (= release), 1 to 1 byte, 2 anywhere, 3 same size, 4 one granule less,
+//                                                      5 one granule less + 1, 6 larger (rejected), 7 to a granule multiple
+//                                                via: 0 span returned by alloc, 1 span returned by query
 //   3 query   [3, mode, i, v]                    mode: 0 live start, 1 interior, 2 first granule, 3 released, 4 foreign
 //   4 write   [4, i, form, off, len, seed]       form: 0 offset, 1 callback, 2 callback+truncate, 3 scope offset, 4 scope callback,
 //                                                      5 out of range (rejected), 6 callback returning an error, 7 direct rw()
 //   5 reset   [5, hard]
-//   6 stats   [6]                                full audit (every span byte by byte, pairwise disjointness, statistics)
+//   6 audit   [6]                                every span's tracked bytes, pairwise disjointness in both views, queries, statistics
 //   7 burst   [7, seed, count]                   `count` further operations derived deterministically from `seed`
 //   8 reuse   [8, i, v]                          release/shrink followed by an allocation that fits into the freed bytes
-//   9 reject  [9, which]                         release(nullptr | foreign), shrink(empty span)
+//   9 reject  [9, which]                         release(nullptr | foreign), shrink / write with an empty span
 //
-// Oracle: explicit model (live spans with their bytes, blocks identified by the opaque Span::_block token, running sums).
+// Oracle: explicit model (live spans with their bytes, blocks identified by the opaque Span::_block token, running sums);
+// statistics are compared after every operation. Not generated (outside the documented domain and not checked by the
+// code): release of a released/interior pointer, shrink/write through a stale span, a write callback truncating to 0.
+//
+// Known findings (keys) have a continue/avoid path each: is-initialized-inverted, empty-blocks-retained, reset-allocation-count,
+// soft-reset-not-filled continue; soft-reset-stale-tree-links and full-block-stale-search-range abort the process inside
+// AsmJit (assert / sanitizer), so the operation that would trigger them is avoided when the key is listed.
+// Debugging aid: C09_TRACE=1 prints every executed operation (also inside bursts) to stderr.
 #define VH_MAIN
 #include "vh.h"
 
@@ -204,9 +216,6 @@ struct BlockM {
 
 struct RelPtr { uintptr_t rx; void* block; };
 
-static Error cb_full(Span& span, void* ud) noexcept;
-static Error cb_fail(Span& span, void* ud) noexcept;
-
 struct CbData {
   const uint8_t* src = nullptr;
   size_t n = 0;          // bytes to copy to span.rw()
@@ -254,7 +263,6 @@ struct Runner {
   size_t known_empty = 0;                // blocks in `blocks` with live == 0
   size_t known_empty_append_only = 0;    // ... of which emptied in append-only mode (see BlockM)
   size_t unknown_retained = 0;           // blocks kept by a soft reset that have not been seen again
-  size_t unknown_from_reset = 0;
   size_t sum = 0;                        // sum of live span sizes
   size_t count_bias = 0;                 // allocation_count() left behind by reset() (known finding reset-allocation-count)
   size_t Bc = 0;                         // number of blocks (statistics().block_count(), validated step by step)
@@ -1170,8 +1178,6 @@ static bool dual_mapping_available() {
 struct Setup {
   uint32_t opt = 0;
   JitAllocator::CreateParams params;
-  uint32_t want_block = 0, want_gran = 0;
-  bool custom = false;
 };
 
 static Setup make_setup(const vh::Case& c, vh::Ctx& ctx) {
